@@ -13,7 +13,7 @@ namespace sim {
 // name, owner property, modifies-the-file flag
 #define NIXSIM_OPS(X) \
     X(flush, "C11", 0) X(reopen, "C02", 0) X(kill, "C11", 0) X(drop, "C16", 1) X(clock, "C12", 0) \
-    X(flush_fault, "C11", 0) X(use_stale, "C16", 1) X(keep, "C16", 0) \
+    X(flush_fault, "C11", 0) X(close_fault, "C11", 0) X(use_stale, "C16", 1) X(keep, "C16", 0) \
     X(create_block, "C03", 1) X(delete_block, "C04", 1) X(create_section, "C03", 1) X(delete_section, "C04", 1) \
     X(create_source, "C03", 1) X(delete_source, "C04", 1) X(create_array, "C03", 1) X(delete_array, "C04", 1) \
     X(create_frame, "C03", 1) X(delete_frame, "C04", 1) X(create_tag, "C03", 1) X(delete_tag, "C04", 1) \
